@@ -58,17 +58,24 @@ package gateway
 //@ count Allowed = (*converter).checkListenerAllowed
 
 // nothing is created for a listener unless the section name matches and the
-// listener admits the route
+// listener admits the route; a listener that refuses the route does not end
+// the walk: the listener loop runs to exhaustion (at the loop exit the range
+// counter has been advanced past the last element, hence the + 1; a break
+// leaves it at most len)
 //@ func (*converter).syncHTTPRouteGateway
 //@   props C10
 //@   at call createBackend#1 assert admitted: calls(Allowed) >= 1 && last(Allowed) == nil && before(Allowed, sectionName == nil || *sectionName == listener.Name)
 //@   at call checkListenerAllowed#1 assert args: $arg1 == gatewaySource && $arg3 == &listener
+//@   loop 1 invariant rng: 0 <= $idx(1) && $idx(1) <= len($rng(1))
+//@   lemma every-listener: $idx(1) == len($rng(1)) + 1
 //@ end
 
 //@ func (*converter).syncTCPRouteGateway
 //@   props C10
 //@   at call createBackend#1 assert admitted: calls(Allowed) >= 1 && last(Allowed) == nil && before(Allowed, sectionName == nil || *sectionName == listener.Name)
 //@   at call checkListenerAllowed#1 assert args: $arg1 == gatewaySource && $arg3 == &listener
+//@   loop 1 invariant rng: 0 <= $idx(1) && $idx(1) <= len($rng(1))
+//@   lemma every-listener: $idx(1) == len($rng(1)) + 1
 //@ end
 
 // only Gateway parents of the gateway group are followed; the gateway's
